@@ -8,6 +8,9 @@ driver for C17 (all text arguments are hex of the UTF-8 bytes, `-` = empty):
   `ts.loc <zone> <isdst -|0|1> <wall second>`      localize alone (+ the list of preimages)
   `ts.wf <zone>`                                    the hypothesis of the zone theorems on this table
   `ts.cmp <a> <b>`                                  lt gt le ge eq ne
+  `ts.seq <mu> <bias> <loc zone|-> <db|-> <ops>`    operations on ONE timestamp object (cached `_str`), ops joined by `,`:
+        `s` str()  `r:<p>` render(ms=p)  `L` .local  `i:<nz>:<mu>:<bias>` += / -=  `a:<nz>:<mu>:<bias>` obj = obj ± n
+        `k` obj = timestamp(obj)  `u:<hex>` .utc = text  `c:<mu>:<bias>` compare with a fresh timestamp (bits~str(obj)~str(other))
   `dur.rt <d>` `dur.fmt <d>` `dur.parse <hex>`
 zone  = `name;off,dst,abbr;t,off,dst,abbr;…`   db = zones joined by `|`   abbrevs = `ABBR=key=flag,…`
 -/
@@ -74,8 +77,55 @@ def durCfg : DurCfg := { yr := Generated.durYR, wk := Generated.durWK, dy := Gen
 
 def bit (b : Bool) : String := if b then "1" else "0"
 
+def showText : Option (List Char) → String
+  | some t => String.ofList t
+  | none => "reject:range"
+
+def parseObjOp (op : String) : Option ObjOp :=
+  match splitStr op ':' with
+  | ["s"] => some .str
+  | ["r", p] => do
+    let p ← p.toNat?
+    if p > 6 then none
+    pure (.render p)
+  | ["L"] => some .localGet
+  | ["i", nz, mu, bias] => do pure (.inplace (nz == "1") (← mu.toInt?) (← bias.toInt?))
+  | ["a", nz, mu, bias] => do pure (.arith (nz == "1") (← mu.toInt?) (← bias.toInt?))
+  | ["k"] => some .copy
+  | ["u", text] => do pure (.assign (← textOfHex text))
+  | ["c", mu, bias] => do pure (.cmp (← mu.toInt?) (← bias.toInt?))
+  | _ => none
+
+/-- what the harness observes of an operation (the object afterwards is `TsObj.step`) -/
+def observe (loc : Option Zone) (db : TzDb) (o : TsObj) : ObjOp → String
+  | .str => showText (o.str cmpCfg.prec).1
+  | .render p => showText (render p o.μ o.bias none .dflt)
+  | .localGet => showText (render 0 o.μ o.bias loc .dflt)
+  | .inplace .. => "-"
+  | .arith .. => "-"
+  | .copy => "-"
+  | .assign t => match o.assign db t with
+    | .ok _ => "ok"
+    | .error e => e.text
+  | .cmp mu bias =>
+    let other : TsObj := { μ := mu, bias := bias }
+    "".intercalate ([tsLt cmpCfg o.μ mu, tsGt cmpCfg o.μ mu, tsLe cmpCfg o.μ mu, tsGe cmpCfg o.μ mu,
+      tsEq cmpCfg o.μ mu, tsNe cmpCfg o.μ mu].map bit)
+      ++ "~" ++ showText (o.str cmpCfg.prec).1 ++ "~" ++ showText (other.str cmpCfg.prec).1
+
+def seqOp (loc : Option Zone) (db : TzDb) (o : TsObj) (op : String) : Option (String × TsObj) := do
+  let op ← parseObjOp op
+  pure (observe loc db o op, o.step cmpCfg.prec db op)
+
+def seqRun (loc : Option Zone) (db : TzDb) : TsObj → List String → Option (List String)
+  | _, [] => some []
+  | o, op :: ops => do
+    let (out, o') ← seqOp loc db o op
+    let rest ← seqRun loc db o' ops
+    pure (out :: rest)
+
 def commands : List String :=
-  ["ts.rt", "ts.parse", "ts.loc", "ts.wf", "ts.cmp", "dur.rt", "dur.fmt", "dur.parse"]
+  ["ts.rt", "ts.parse", "ts.loc", "ts.wf", "ts.cmp", "ts.seq", "dur.rt", "dur.fmt", "dur.parse"]
 
 def handle : List String → Option String
   | ["ts.rt", fixed, p, mu, bias, detail, zone, db, abbrevs] => do
@@ -106,6 +156,13 @@ def handle : List String → Option String
     let b ← b.toInt?
     pure (" ".intercalate ([tsLt cmpCfg a b, tsGt cmpCfg a b, tsLe cmpCfg a b, tsGe cmpCfg a b,
       tsEq cmpCfg a b, tsNe cmpCfg a b].map bit))
+  | ["ts.seq", mu, bias, loc, db, ops] => do
+    let mu ← mu.toInt?
+    let bias ← bias.toInt?
+    let loc ← parseOptZone loc
+    let db ← parseDb db "-"
+    let outs ← seqRun loc db { μ := mu, bias := bias } (splitStr ops ',')
+    pure (";".intercalate outs)
   | ["dur.rt", d] => do
     let d ← d.toInt?
     let text := durFormat durCfg d
